@@ -170,7 +170,8 @@ class Stage2:
         with open(os.path.join(self.cdir, "ops.txt")) as fin, open(os.path.join(self.cdir, "impl.txt"), "w") as fout:
             env = dict(common.GOENV)
             env["GOMEMLIMIT"] = "4GiB"
-            pr = subprocess.run([os.path.join(self.cdir, "stage2.bin"), os.path.join(self.cdir, "idx.txt")],
+            pr = subprocess.run([os.path.join(self.cdir, "stage2.bin"), os.path.join(self.cdir, "idx.txt"),
+                                 os.path.join(self.cdir, "stage1.txt")],
                                 stdin=fin, stdout=fout, stderr=subprocess.PIPE, env=env, timeout=3600)
         return pr.returncode, pr.stderr.decode(errors="replace")[-2000:]
 
@@ -213,3 +214,80 @@ def text_of(info, opid):
             if i == str(opid):
                 return _hex_text(d.get("impl", "")) or d.get("impl")
     return None
+
+
+# ---------------------------------------------------------------- probe: two imported packages with one name
+
+PROBE_FILES = {
+    "go.mod": "module probe\n\ngo 1.24\n",
+    "a/ext/x.go": "package ext\n\ntype T struct{ A int }\n",
+    "b/ext/x.go": "package ext\n\ntype T struct{ B string }\n",
+    "p/p.go": "package p\n\nimport (\n\taext \"probe/a/ext\"\n\tbext \"probe/b/ext\"\n)\n\n"
+              "// Two has exported fields whose types come from two packages that are both named ext.\n"
+              "type Two struct {\n\tX aext.T\n\tY *bext.T\n}\n\n"
+              "func Orig() *Two { return &Two{X: aext.T{A: 1}, Y: &bext.T{B: \"x\"}} }\n",
+    "q/q.go": "package q\n\nimport \"probe/p\"\n\nfunc GoString(x *p.Two) string { return deriveGoString(x) }\n",
+    "m/main.go": "package main\n\nimport (\n\t\"fmt\"\n\n\t\"probe/p\"\n\t\"probe/q\"\n)\n\n"
+                 "func main() { fmt.Print(q.GoString(p.Orig())) }\n",
+}
+
+PROBE_STAGE2 = """package main
+
+import (
+\t"fmt"
+\t"reflect"
+
+\t"probe/p"
+%s)
+
+var _ p.Two
+
+func main() {
+\tv :=
+%s
+\tfmt.Println(reflect.DeepEqual(v, p.Orig()))
+}
+"""
+
+
+def probe_pkgname():
+    """Type `Two struct{X aext.T; Y *bext.T}` where both imported packages are NAMED ext: the text prints
+    both as `ext.T` (TypeStringBypass qualifies by package name). Tries every way an importing package can
+    bind the name `ext`. Returns {"ok": bool, "text": str, "errors": [...]} ; ok = some variant compiled
+    and evaluated to a DeepEqual value."""
+    d, binp = common.build_goderive()
+    pd = os.path.join(d, "gostring-probe")
+    with common.Lock("gostring-probe"):
+        mark = os.path.join(pd, "result.json")
+        if os.path.exists(mark):
+            return json.load(open(mark))
+        shutil.rmtree(pd, ignore_errors=True)
+        for rel, body in PROBE_FILES.items():
+            os.makedirs(os.path.dirname(os.path.join(pd, rel)), exist_ok=True)
+            with open(os.path.join(pd, rel), "w") as f:
+                f.write(body)
+        rc, err, to = common.run_goderive(binp, pd, ["./q"], timeout=120)
+        if rc != 0:
+            r = {"ok": False, "text": "", "errors": ["goderive failed on the probe package: " + err[-500:]], "generated": False}
+            json.dump(r, open(mark, "w"))
+            return r
+        p1 = subprocess.run(["go", "run", "./m"], cwd=pd, env=common.GOENV, stdout=subprocess.PIPE, stderr=subprocess.PIPE, timeout=600)
+        if p1.returncode != 0:
+            raise common.CheckError("probe stage 1 failed: " + p1.stderr.decode(errors="replace")[-800:])
+        text = p1.stdout.decode("utf-8", errors="replace")
+        errors, ok = [], False
+        variants = {"ext=a/ext": '\t"probe/a/ext"\n', "ext=b/ext": '\t"probe/b/ext"\n'}
+        for name, imports in variants.items():
+            m2 = os.path.join(pd, "m2")
+            os.makedirs(m2, exist_ok=True)
+            with open(os.path.join(m2, "main.go"), "w") as f:
+                f.write(PROBE_STAGE2 % (imports, text.rstrip("\n")))
+            p2 = subprocess.run(["go", "run", "./m2"], cwd=pd, env=common.GOENV, stdout=subprocess.PIPE, stderr=subprocess.PIPE, timeout=600)
+            if p2.returncode == 0 and p2.stdout.decode().strip() == "true":
+                ok = True
+                break
+            errors.append(name + ": " + (p2.stderr.decode(errors="replace").strip().split("\n") + [""])[1 if p2.returncode else 0][:300]
+                          if p2.returncode else name + ": evaluates to a different value")
+        r = {"ok": ok, "text": text, "errors": errors, "generated": True}
+        json.dump(r, open(mark, "w"))
+        return r
